@@ -3,6 +3,7 @@ Crash points: the REAL key keeper runs in a child process; `strace -f -p <pid> -
 kills it at its N-th such syscall after the first status poll was released, for every N on the path."""
 import json
 import os
+import re
 import shutil
 import signal
 import subprocess
@@ -94,7 +95,7 @@ def check_dir(chk, key_dir, host, desc):
     return ok
 
 
-def run_once(chk, binp, scenario, n, rng):
+def run_once(chk, binp, scenario, n, rng, watch_writes=False):
     """returns (killed?, finished?)"""
     sd = vlib.scratch_dir("c08")
     key_dir = os.path.join(sd, "keys")
@@ -109,6 +110,11 @@ def run_once(chk, binp, scenario, n, rng):
         if n is not None:
             tracer = subprocess.Popen(["strace", "-f", "-q", "-o", "/dev/null", "-p", str(kp.proc.pid), "-e", "trace=" + SYSCALLS,
                                        "-e", f"inject={SYSCALLS}:signal=SIGKILL:when={n}"], stdout=subprocess.DEVNULL, stderr=subprocess.DEVNULL)
+            time.sleep(0.25)
+        elif watch_writes:
+            # no kill: every write-like call of the run with the path its descriptor has at that moment (strace -y)
+            tracer = subprocess.Popen(["strace", "-f", "-y", "-q", "-o", os.path.join(sd, "writes.txt"), "-p", str(kp.proc.pid), "-e",
+                                       "trace=write,pwrite64,writev,pwritev,ftruncate,truncate"], stdout=subprocess.DEVNULL, stderr=subprocess.DEVNULL)
             time.sleep(0.25)
         ncalls = 0
         # release iterations until the key is published or the process dies
@@ -143,6 +149,26 @@ def run_once(chk, binp, scenario, n, rng):
             except Exception:
                 tracer.kill()
         kp.close()
+        if watch_writes:
+            bad, seen = [], 0
+            try:
+                for line in open(os.path.join(sd, "writes.txt"), errors="replace"):
+                    mm = re.search(r"\b(?:write|pwrite64|writev|pwritev|ftruncate)\(\d+<([^>]*)>", line) or re.search(r"\btruncate\(\"([^\"]*)\"", line)
+                    if not mm or not mm.group(1).startswith(key_dir):
+                        continue
+                    seen += 1
+                    if mm.group(1).endswith(".key"):
+                        bad.append(line.strip()[:160])
+            except OSError:
+                pass
+            chk.count("key_store_writes_watched", seen)
+            if seen == 0:
+                chk.notes.append("write watch (%s): no write into the key directory seen" % scenario)
+            if bad:
+                chk.violation("a truncated or corrupt file exists under a key's final name after the crash",
+                              dict(desc, situation="no crash needed to see it: the file is written to while it already has its final name "
+                                                   "(a crash or a reader at that moment finds it incomplete)", writes=bad[:4]),
+                              expected="a key file gets its final name only after its last write", observed="written under the final name")
         chk.count(f"{scenario}_{'killed' if killed else 'survived'}")
         check_dir(chk, key_dir, host, desc)
         # ---- restart on the same directory: must converge, and without a second acquire when the host had latched
@@ -218,6 +244,8 @@ def run(chk):
             run_once(chk, binp, sc, None, rng)
             for n in (rng.rand_range(1, 12), rng.rand_range(13, 40)):
                 run_once(chk, binp, sc, n, rng)
+    for sc in ("fresh", "rotation"):
+        run_once(chk, binp, sc, None, rng, watch_writes=True)
     for sc in scenarios:
         run_once(chk, binp, sc, None, rng)
         n = 1
